@@ -45,6 +45,21 @@ def impl(case):
             except Exception as e:  # noqa
                 out[name] = {"exc": type(e).__name__, "msg": "ctor: " + str(e)[:200]}
                 continue
+            if case.get("scribble"):
+                # a caller that EDITS what it was handed (masking EOS, renormalising in place …): every result object is
+                # overwritten right after it is returned; the sweep below then asks the same questions again
+                for c in case["ctxs"][:8]:
+                    try:
+                        q = lm.p_next(tup(c))
+                        for k_ in list(q):
+                            q[k_] = 7.0
+                        mdl = getattr(lm, "model", None)
+                        if mdl is not None and hasattr(mdl, "next_token_weights") and name in ("earley", "rescaled"):
+                            w_ = mdl.next_token_weights(mdl.chart(tup(c)))
+                            for k_ in list(w_):
+                                w_[k_] = 0.0
+                    except Exception:  # noqa
+                        pass
             pn = []
             for c in case["ctxs"]:
                 try:
@@ -121,7 +136,7 @@ def make_case(rng, i, tier):
         ext = [rng.choice(V) for _ in range(rng.choice([2, 3]))]
         ctxs = [P, P + ext, P, P + [rng.choice(V)]] + ctxs
     xs = gen.gen_strings(rng, desc, k=4, maxlen=4)[:7]
-    return {"id": i, "shape": shape, "finite": finite, "cfg": desc, "ctxs": ctxs, "xs": xs, "lms": LMS,
+    return {"id": i, "shape": shape, "finite": finite, "cfg": desc, "ctxs": ctxs, "xs": xs, "lms": LMS, "scribble": rng.random() < 0.3,
             "jitter": rng.randrange(1 << 30) if rng.random() < 0.6 else None}
 
 
